@@ -65,18 +65,26 @@ def _c12(run, drv, rng, tier):
     props_c12.check(run, drv, rng, tier)
 
 
+def _n(tier, q, t):
+    return q if tier == "quick" else t
+
+
 def _c16(run, drv, rng, tier):
-    from . import props_c16
+    from . import props_c16, ties
+    ties.tie_json(run, drv, rng, _n(tier, 25, 600))
     props_c16.check(run, drv, rng, tier)
 
 
 def _c20(run, drv, rng, tier):
-    from . import props_c20
+    from . import props_c20, ties
+    ties.tie_lint(run, drv, rng, _n(tier, 200, 5000))
+    ties.tie_cli(run, drv, rng, _n(tier, 15, 300))
     props_c20.check(run, drv, rng, tier)
 
 
 def _c10(run, drv, rng, tier):
-    from . import props_c10
+    from . import props_c10, ties
+    ties.tie_emit(run, drv, rng, _n(tier, 30, 800))
     props_c10.check(run, drv, rng, tier)
 
 
@@ -86,8 +94,17 @@ def _c15(run, drv, rng, tier):
 
 
 def _c17(run, drv, rng, tier):
-    from . import props_c17
+    from . import props_c17, ties
+    ties.tie_cli(run, drv, rng, _n(tier, 30, 600))
+    ties.tie_emitted(run, drv, rng, _n(tier, 25, 500))
     props_c17.check(run, drv, rng, tier)
+
+
+def _c18(run, drv, rng, tier):
+    from . import props_c18, ties
+    ties.tie_memo(run, drv, rng, _n(tier, 200, 5000))
+    ties.tie_cli(run, drv, rng, _n(tier, 15, 300))
+    props_c18.check(run, drv, rng, tier)
 
 
 def _c13(run, drv, rng, tier):
@@ -382,6 +399,18 @@ PROPS = {
                 "see tools/props_c10.NOTES.md; known deviations are routed to KNOWN-FINDING only while their witness re-confirms; "
                 "distinct by (shape, config, feature tuple)",
         "assumptions": ["the verdict of gcc/g++/python beyond declare-before-use, uniqueness, include targets and layout is outside the model; Go is never compiled"],
+    },
+    "C18": {
+        "modules": ["BpModel.Props.C18"],
+        "theorems": ["Bp.C18.C18_cache_transparent", "Bp.C18.C18_prior_runs", "Bp.C18.C18_lint_indep"],
+        "explore": _c18,
+        "correspondence": "sha256 of every generated file across fresh processes (hash seed, cwd, input / output path spelling, -q) and across one-process "
+                          "schedules (interleaved, repeated, kept trees, failing compiles in between); cache_if_frozen on real Node objects vs C18.Memo; "
+                          "_main.main vs Cli.main (native driver)",
+        "rule": "see tools/props_c18.NOTES.md: random multi-file programs and a hand-structured workspace with twins (same names, other content); "
+                "option sets c / go / py / -O / --endian / -F; distinct by case tuple",
+        "assumptions": ["hash randomisation, id() reuse, dict implementation and process-level state are runtime effects outside the model: they are only "
+                        "executed by the correspondence (environment grid), so the claim is partial there"],
     },
     "C17": {
         "modules": ["BpModel.Props.C17"],
